@@ -201,3 +201,36 @@ def _dec_value(idl, sname, fname, bt, inner, toks, pos):
             out.append(e)
         return out, pos
     raise Malformed("type %s" % bt)
+
+
+# ------------------------------------------------------------------ marker convention ---
+def marker_faults(idl, sname, d, where=None):
+    """fastparquet's in-memory form {field id: value} says which integers are 32 bits wide through the side markers
+    'i32' (all) / 'i32list' (the listed ids); write_thrift emits every other integer as i64.  Returns the fields of `d`
+    (recursively) whose wire type would then differ from the one parquet.thrift declares.  i8 / i16 fields are not
+    judged (known finding T2)."""
+    where = where or sname
+    out = []
+    if hasattr(d, "contents"):
+        d = d.contents
+    all32 = "i32" in d and "i32list" not in d
+    listed = d.get("i32list") or []
+    for f in idl["structs"][sname]["fields"]:
+        v = d.get(f["id"])
+        if v is None:
+            continue
+        bt, inner = base_type(idl, f["type"])
+        if isinstance(v, bool):
+            continue
+        if bt == "i32" and isinstance(v, int):
+            if not (all32 or f["id"] in listed):
+                out.append("%s.%s: declared i32, not marked (written as i64)" % (where, f["name"]))
+        elif bt == "i64" and isinstance(v, int):
+            if all32 or f["id"] in listed:
+                out.append("%s.%s: declared i64, marked 32-bit (written as i32)" % (where, f["name"]))
+        elif bt == "struct":
+            out += marker_faults(idl, inner, v, "%s.%s" % (where, f["name"]))
+        elif bt == "list" and inner in idl["structs"]:
+            for k, it in enumerate(v):
+                out += marker_faults(idl, inner, it, "%s.%s[%d]" % (where, f["name"], k))
+    return out
